@@ -1,0 +1,94 @@
+//go:build verif
+
+package api
+
+import (
+	"context"
+	"net/http"
+	"sort"
+	"time"
+)
+
+// This file is only compiled with the "verif" build tag. It exports what the
+// external verification harness (/verif) needs and does not change behaviour.
+
+// VerifMainHandler returns a main handler (CORS/origin gate, routing,
+// authentication) in front of the main mux, exactly as the API tests build it.
+func VerifMainHandler() http.Handler {
+	return &mainHandler{mux: mainMux}
+}
+
+// VerifSyncAPIKeys re-imports the API keys from the configuration now. Without
+// it this only happens asynchronously through the config change event.
+func VerifSyncAPIKeys() {
+	_ = updateAPIKeys(context.Background(), nil)
+}
+
+// VerifAgeSessions makes every existing session look d older.
+func VerifAgeSessions(d time.Duration) {
+	sessionsLock.Lock()
+	defer sessionsLock.Unlock()
+
+	for _, sess := range sessions {
+		sess.Lock()
+		sess.validUntil = sess.validUntil.Add(-d)
+		sess.Unlock()
+	}
+}
+
+// VerifSessionCount returns the number of stored sessions.
+func VerifSessionCount() int {
+	sessionsLock.Lock()
+	defer sessionsLock.Unlock()
+
+	return len(sessions)
+}
+
+// VerifCleanSessions runs the periodic session cleaner now.
+func VerifCleanSessions() {
+	_ = cleanSessions(context.Background(), nil)
+}
+
+// VerifBridgeRemoteAddress returns the remote address that marks requests of
+// the internal database bridge.
+func VerifBridgeRemoteAddress() string {
+	return endpointBridgeRemoteAddress
+}
+
+// VerifSessionCookieName returns the name of the session cookie.
+func VerifSessionCookieName() string {
+	return sessionCookieName
+}
+
+// VerifSessionTTL returns the session time to live.
+func VerifSessionTTL() time.Duration {
+	return sessionCookieTTL
+}
+
+// VerifState returns the operation IDs of the currently registered queries
+// and subscriptions of a database API instance.
+func (api *DatabaseAPI) VerifState() (queries, subs []string) {
+	api.queriesLock.Lock()
+	for opID := range api.queries {
+		queries = append(queries, opID)
+	}
+	api.queriesLock.Unlock()
+
+	api.subsLock.Lock()
+	for opID := range api.subs {
+		subs = append(subs, opID)
+	}
+	api.subsLock.Unlock()
+
+	sort.Strings(queries)
+	sort.Strings(subs)
+	return queries, subs
+}
+
+// VerifShutdown signals the end of the connection to all running queries and
+// subscriptions of a database API instance, as closing the websocket does.
+func (api *DatabaseAPI) VerifShutdown() {
+	if api.shuttingDown.SetToIf(false, true) {
+		close(api.shutdownSignal)
+	}
+}
